@@ -476,10 +476,16 @@ class RegexCompiler:
 
         if need_advance_check:
             reg = self._allocate_register()
+            # ECMAScript checks progress only once the minimum is reached: the
+            # first iteration may match empty, so it skips SET_POS and runs
+            # with the register cleared
+            self._emit(Op.CLEAR_POS, reg)
+            first_idx = self._emit(Op.JUMP, 0)
             loop_start = self._current_offset()
 
-            self._emit_capture_reset(capture_groups)
             self._emit(Op.SET_POS, reg)
+            self._patch(first_idx, Op.JUMP, self._current_offset())
+            self._emit_capture_reset(capture_groups)
             self._compile_node(body)
             # CHECK_ADVANCE before SPLIT so that if body took a non-advancing path
             # (like empty alternative), we backtrack to body alternatives first,
